@@ -929,6 +929,10 @@ func (e *SpecEnv) call(n *SCall) Value {
 			return intV(v.S)
 		case KSlice:
 			return intV(v.Rid)
+		case KFunc:
+			if v.Fn == nil && v.S != "" {
+				return intV(v.S) // identity of a function value held in a variable or field
+			}
 		}
 		specFail("ref() of kind %d", v.K)
 	case "seq":
